@@ -66,9 +66,24 @@ def expl_with_tags(segs, tags):
         out.extend(e); ot.extend([t] * len(e))
     return out, ot
 
+def merge_tagged(segs, tags):
+    """apply the emission normalisation (slices of one value merge into that value) to the specification side too"""
+    from evalr import merge_bytes
+    out = []; ot = []; i = 0
+    while i < len(segs):
+        # try to merge a run of untagged integer segments starting here
+        j = i
+        while j < len(segs) and segs[j][0] == 'int' and tags[j] is None and segs[j][1] != ANY: j += 1
+        if j - i >= 2:
+            m = merge_bytes(list(segs[i:j]))
+            out.extend(m); ot.extend([None] * len(m)); i = j; continue
+        out.append(segs[i]); ot.append(tags[i]); i += 1
+    return out, ot
+
 def compare(got, exp_segs, exp_tags, facts=()):
     """-> list of mismatches [(offset str, what)]; wildcard values (ANY) match any term of the same width"""
     got = explode(norm_segs(list(got)))
+    exp_segs, exp_tags = merge_tagged(exp_segs, exp_tags)
     exp, tags = expl_with_tags(exp_segs, exp_tags)
     # drop empty expected segments consistently with norm_segs
     pairs = [(s, t) for s, t in zip(exp, tags) if not (s[0] == 'rep' and (s[1] == ZERO or not s[3])) and not (s[0] == 'raw' and s[2] == ZERO)]
